@@ -30,6 +30,9 @@ pub fn prop() -> Prop {
     }
 }
 
+/// measured: table operations executed (announce, lookup, sweep, remove) and observation points (states checked)
+pub static OPS: std::sync::atomic::AtomicU64 = std::sync::atomic::AtomicU64::new(0);
+pub static POINTS: std::sync::atomic::AtomicU64 = std::sync::atomic::AtomicU64::new(0);
 const PEER_TO: Time = 7;
 const SWITCH_TO: Time = 3;
 
@@ -103,6 +106,8 @@ pub fn run_seq(c: &SeqCase) -> CaseResult {
         }
         let list = &all[*li];
         table.set_claims(p, list.iter().map(|i| claim(*i)).collect());
+        OPS.fetch_add(6, std::sync::atomic::Ordering::Relaxed); // 1 announcement + 4 lookups + 1 sweep per step
+        POINTS.fetch_add(1, std::sync::atomic::Ordering::Relaxed);
         let want: std::collections::BTreeSet<usize> = list.iter().cloned().collect();
         // (1) claims attributed to p
         let got: std::collections::BTreeSet<usize> =
@@ -395,8 +400,8 @@ pub fn run(ctx: &Ctx) {
         let mut fams = ctx.families.lock().unwrap();
         for f in fams.iter_mut() {
             if f.name == "announcement_sequences" {
-                f.states = f.evaluations * (k as u64 + 2);
-                f.transitions = f.evaluations * (k as u64 + 2) * 5;
+                f.states = POINTS.load(std::sync::atomic::Ordering::Relaxed);
+                f.transitions = OPS.load(std::sync::atomic::Ordering::Relaxed);
             }
         }
     }
